@@ -37,7 +37,8 @@ def make_exc(kind, i):
     raise AssertionError(kind)
 
 
-def fam_fail(E, n, kinds, body_kinds, cancel_one=False, real=False, inner=False):
+def fam_fail(E, n, kinds, body_kinds, cancel_one=False, real=False, inner=False,
+             scope_kind='scope'):
     ck = [kinds[E.pick('kind%d' % i, len(kinds))] for i in range(n)]
     f = [E.num('f%d' % i, 0, 30, real=real) for i in range(n)]
     bk = body_kinds[E.pick('body', len(body_kinds))]
@@ -88,8 +89,15 @@ def fam_fail(E, n, kinds, body_kinds, cancel_one=False, real=False, inner=False)
 
     async def owner():
         outcome = None
+        def make_scope():
+            if scope_kind == 'until-delay':
+                return until(time + 500)          # never reached: must behave like Scope()
+            if scope_kind == 'until-flag':
+                from usim import Flag
+                return until(Flag())
+            return Scope()
         try:
-            async with Scope() as scope:
+            async with make_scope() as scope:
                 tasks = [scope.do(child(i), volatile=(ck[i] == CLEANUP)) for i in range(n)]
                 S['tasks'] = tasks
                 if cancel_one:
@@ -228,6 +236,14 @@ FAMILIES = [
            thorough=dict(n=3, kinds=[FINISH, ERR_A, SYS_EXIT, CLEANUP], body_kinds=[FINISH, ERR_A]),
            reach=['concurrent', 'no-failure'],
            bounds='children may be volatile tasks whose clean-up raises when the scope closes them'),
+    Family('two_until', fam_fail,
+           quick=dict(n=2, kinds=[FINISH, ERR_A, SYS_EXIT], body_kinds=[FINISH, ERR_A],
+                      scope_kind='until-delay'),
+           thorough=dict(n=2, kinds=K5, body_kinds=[FINISH, ERR_A, ASSERTION],
+                         scope_kind='until-flag'),
+           reach=['concurrent', 'no-failure', 'privileged'],
+           bounds='the scope is an until-scope whose notification (a far delay / an unset flag) '
+                  'does not fire'),
     Family('three', fam_fail,
            thorough=dict(n=3, kinds=[FINISH, ERR_A, SYS_EXIT, NESTED], body_kinds=[FINISH, ERR_A]),
            reach=REACH, bounds='3 children'),
